@@ -31,6 +31,7 @@ import (
 	"github.com/nuts-foundation/nuts-node/crypto/dpop"
 	"github.com/nuts-foundation/nuts-node/crypto/storage/spi"
 	"github.com/nuts-foundation/nuts-node/jsonld"
+	"github.com/nuts-foundation/nuts-node/network"
 	"github.com/nuts-foundation/nuts-node/network/dag"
 	"github.com/nuts-foundation/nuts-node/storage"
 	"github.com/nuts-foundation/nuts-node/storage/orm"
@@ -44,6 +45,7 @@ import (
 	"github.com/nuts-foundation/nuts-node/vcr/verifier"
 	"github.com/nuts-foundation/nuts-node/vdr/resolver"
 	"github.com/sirupsen/logrus"
+	"go.uber.org/mock/gomock"
 )
 
 type c11aOp struct {
@@ -116,6 +118,10 @@ func (s *c11aStore) StoreRevocation(r credential.Revocation) error {
 	return err
 }
 
+type c11aWriter struct{}
+
+func (c11aWriter) StoreCredential(vc.VerifiableCredential, *time.Time) error { return nil }
+
 type c11aWorld struct {
 	t     *testing.T
 	keys  *c11aKeys
@@ -185,6 +191,51 @@ func (w *c11aWorld) exec(op c11aOp) (line string) {
 			return "adeliver retry"
 		}
 		return fmt.Sprintf("adeliver odd:%v:%v", finished, err)
+	case "awire":
+		// the real Configure(): which subscriptions it makes, what their filters let through and where the events end up
+		ctrl := gomock.NewController(w.t)
+		nw := network.NewMockTransactions(ctrl)
+		nw.EXPECT().WithPersistency().Return(network.SubscriberOption(func() dag.NotifierOption { return dag.WithContext(context.Background()) })).AnyTimes()
+		notifiers := map[string]dag.Notifier{}
+		nw.EXPECT().Subscribe(gomock.Any(), gomock.Any(), gomock.Any()).DoAndReturn(func(name string, r dag.ReceiverFn, opts ...network.SubscriberOption) error {
+			var nopts []dag.NotifierOption
+			for _, o := range opts {
+				nopts = append(nopts, o())
+			}
+			notifiers[name] = dag.NewNotifier(name, r, nopts...)
+			return nil
+		}).AnyTimes()
+		a := ambassador{networkClient: nw, verifier: w.v, writer: c11aWriter{}}
+		if err := a.Configure(); err != nil {
+			return "awire err:" + err.Error()
+		}
+		var names []string
+		for n := range notifiers {
+			names = append(names, n)
+		}
+		sort.Strings(names)
+		var parts []string
+		for ni, name := range names {
+			var res []string
+			for ei, ev := range []struct{ label, evType, payloadType string }{
+				{"rev", dag.PayloadEventType, types.RevocationLDDocumentType}, {"vc", dag.PayloadEventType, types.VcDocumentType},
+				{"txevent", dag.TransactionEventType, types.RevocationLDDocumentType}} {
+				subject := fmt.Sprintf("%s#wire-%d-%d-%d", c11aA, w.n, ni, ei)
+				payload, err := w.signedRevocation(c11aOp{Subject: subject, Issuer: c11aA})
+				if err != nil {
+					return "awire err:build"
+				}
+				tx := dag.CreateSignedTestTransaction(uint32(100+ni*10+ei), time.Now(), nil, ev.payloadType, true)
+				func() {
+					defer func() { _ = recover() }()
+					notifiers[name].Notify(dag.Event{Type: ev.evType, Hash: tx.Ref(), Transaction: tx, Payload: payload})
+				}()
+				stored, _ := w.v.IsRevoked(ssi.MustParseURI(subject))
+				res = append(res, fmt.Sprintf("%s=%s", ev.label, map[bool]string{true: "stored", false: "-"}[stored]))
+			}
+			parts = append(parts, name+":["+strings.Join(res, " ")+"]")
+		}
+		return "awire " + strings.Join(parts, " ")
 	case "averify":
 		m := map[string]interface{}{
 			"@context":          []interface{}{vc.VCContextV1URI().String()},
@@ -282,6 +333,9 @@ func TestVerifC11a(t *testing.T) {
 	rng := rand.New(rand.NewSource(seed*15485863 + 3))
 	for sc := 0; sc < nScen; sc++ {
 		run(c11aOp{Op: "areset", Sc: sc})
+		if sc%10 == 0 {
+			run(c11aOp{Op: "awire", Sc: sc})
+		}
 		for i, steps := 0, 6+rng.Intn(14); i < steps; i++ {
 			prefix := []string{c11aA, c11aB}[rng.Intn(2)]
 			id := fmt.Sprintf("%s#%d", prefix, rng.Intn(3))
